@@ -647,6 +647,12 @@ func splitFormat(format string) (pieces []string, verbs []byte, ok bool) {
 			cur += string(format[i])
 			continue
 		}
+		if i+1 < len(format) && format[i+1] == '%' {
+			// "%%" prints a literal percent sign
+			cur += "%"
+			i++
+			continue
+		}
 		if i+1 >= len(format) || (format[i+1] != 's' && format[i+1] != 'd') {
 			return nil, nil, false
 		}
